@@ -139,6 +139,8 @@ def call_rule(built: Built, cfg):
     inst, prof, projs = built.inst, built.prof, built.projs
     tie = core.tie_rule(cfg.get("tie", "lexico"), case, projs)
     init = [projs[n] for n in (cfg.get("init") or [])]
+    if cfg.get("init_obj") is not None:
+        init = cfg["init_obj"]  # a caller-owned BudgetAllocation object, possibly shared between several calls
     res = cfg.get("res", True)
     rule = cfg["rule"]
     if rule == "mes":
